@@ -176,12 +176,19 @@ Fixpoint int_digits (t : str) (acc : N) (prev_digit : bool) : option N :=
            end
   end.
 
-Definition py_int (t : str) : option Z :=
+Definition py_int_core (t : str) : option Z :=
   match strip t with
   | 43%N :: r => match int_digits r 0 false with Some n => Some (Z.of_N n) | None => None end
   | 45%N :: r => match int_digits r 0 false with Some n => Some (- Z.of_N n)%Z | None => None end
   | r => match int_digits r 0 false with Some n => Some (Z.of_N n) | None => None end
   end.
+
+(* CPython (>= 3.11) refuses str -> int conversion of more than sys.get_int_max_str_digits() = 4300 digits with ValueError;
+   blanks, the sign and underscores do not count *)
+Definition MAX_STR_DIGITS : N := 4300.
+Definition too_many_digits (t : str) : bool := (MAX_STR_DIGITS <? N.of_nat (length (filter is_digit t)))%N.
+
+Definition py_int (t : str) : option Z := if too_many_digits t then None else py_int_core t.
 
 (* ---- list helpers ---- *)
 Fixpoint index_of (x : str) (l : list str) : option nat :=
